@@ -248,6 +248,7 @@ CaseResult run_seg(const RunCtx &ctx, TapeReader &t, unsigned size_hint) {
             break;
         }
     }
+    if (size_hint >= 85 && t.chance(1, 3)) eps = t.chance(1, 2) ? 1024 : 512; // hull sizes grow with epsilon: large arrays get the largest bounds more often
     // layer: 0 = builder API with generated (x, y) points; 1 = make_segmentation(_par) over a key array;
     //        2 = PGMIndex build (upper levels with EpsilonRecursive), C04 only, integer keys
     size_t layer = c04 && !is_fp ? t.below(3) : t.below(2);
